@@ -293,6 +293,9 @@ func TestVerifCache(t *testing.T) {
 			}
 			continue
 		}
+		if os.Getenv("VERIF_SKIP_CONTROLLED") != "" && c.Mode != "stress" && c.Mode != "timed" {
+			continue
+		}
 		cCurrent.Store(c.ID)
 		reps := c.Reps
 		if reps < 1 || c.Mode != "stress" {
